@@ -103,6 +103,8 @@ struct World : KernelHooks, ModelHost {
 	void on_close(KFd &k) override;
 	void on_timer_set(KFd &k, uint64_t ns) override;
 	void on_timer_create_failed() override;
+	int syscall_fault(const char *name) override;
+	int startup_fail_at = 0, startup_calls = 0;   // fault: the n-th failable system call of the start-up sequence fails
 	void on_syscall(const char *name) override;
 	void hygiene(const std::string &rule, const std::string &detail) override;
 	void on_log(int pri, const std::string &line) override;
